@@ -20,3 +20,39 @@ Print Assumptions C06_row_accounting.
    c06_identical_multiline_strings.rb (row 5 must be reported, the pinned code said 4) *)
 Example C06_string_breaks_counted : breaks_of (RTok (KString [97%N; 10%N; 98%N]) false) false = 1.
 Proof. reflexivity. Qed.
+
+(* the whole token stream (read_all: the function the correspondence runs against parser.Read on generated and corpus
+   texts): from a parser with no pending Unget, for every source text and every number of Reads, the Row after each
+   Read is the Row before it plus the line breaks of that token — nothing else in the text moves a row *)
+Theorem C06_stream_rows :
+  forall is_uspace is_udigit is_uupper is_ulower V bc n fuel p l,
+  read_all is_uspace is_udigit is_uupper is_ulower V bc n fuel p = Some l ->
+  pungot p = false ->
+  (forall x, In x l -> fst (fst x) <> RError) ->
+  rows_from (prow p) l.
+Proof. exact read_all_rows. Qed.
+Print Assumptions C06_stream_rows.
+
+(* closed form: after k Reads the reported row is the start row plus the line breaks of the first k tokens — so k
+   extra line-break tokens anywhere before a position move its row by exactly k *)
+Theorem C06_row_closed_form : forall row l, rows_from row l ->
+  forall k, (k <= List.length l)%nat ->
+  List.last (map (fun x => snd (fst x)) (firstn k l)) row = row + total_breaks (firstn k l).
+Proof. exact rows_from_last. Qed.
+Print Assumptions C06_row_closed_form.
+
+(* non-vacuity: `a`, line break, a two-line string, line break, `b` — rows 1, 2, 3, 4, 4, 5, 5 (the reader supplies the final
+   line break the text lacks; the last entry is EOS) *)
+Example C06_stream_example :
+  let sp := fun c => (c =? 32)%N in
+  let dg := fun c => ((48 <=? c) && (c <=? 57))%N in
+  let up := fun c => ((65 <=? c) && (c <=? 90))%N in
+  let lo := fun c => ((97 <=? c) && (c <=? 122))%N in
+  let src := [97; 10; 34; 120; 10; 121; 34; 10; 98]%N in
+  exists l, read_all sp dg up lo fixed_lex [] 20 40 (ps_new src) = Some l /\
+            map (fun x => snd (fst x)) l = [1; 2; 3; 4; 4; 5; 5] /\
+            (forall x, In x l -> fst (fst x) <> RError) /\ total_breaks l = 4.
+Proof.
+  eexists. split; [vm_compute; reflexivity|]. split; [reflexivity|]. split; [|reflexivity].
+  intros x Hx. cbn in Hx. repeat (destruct Hx as [Hx|Hx]; [subst x; discriminate|]). destruct Hx.
+Qed.
